@@ -3631,8 +3631,8 @@ spmatrix_ass_subscr(spmatrix* self, PyObject* args, PyObject* value)
 
       /* merge lists */
       int_t rhs_cnt = 0, tot_cnt = 0;
-      int_t rhs_j = ilist[rhs_cnt].key / SP_NROWS(self);
-      int_t rhs_i = ilist[rhs_cnt].key % SP_NROWS(self);
+      int_t rhs_j = (lgtI > 0 ? ilist[rhs_cnt].key / SP_NROWS(self) : -1);
+      int_t rhs_i = (lgtI > 0 ? ilist[rhs_cnt].key % SP_NROWS(self) : -1);
       for (j=0; j<SP_NCOLS(self); j++) {
         for (i=SP_COL(self)[j]; i<SP_COL(self)[j+1]; i++) {
           while (rhs_cnt<lgtI && rhs_j == j && rhs_i < SP_ROW(self)[i]) {
@@ -3728,8 +3728,8 @@ spmatrix_ass_subscr(spmatrix* self, PyObject* args, PyObject* value)
 
       /* merge lists */
       int_t rhs_cnt = 0, tot_cnt = 0;
-      int_t rhs_j = ilist[rhs_cnt].key / SP_NROWS(self);
-      int_t rhs_i = ilist[rhs_cnt].key % SP_NROWS(self);
+      int_t rhs_j = (lgtI > 0 ? ilist[rhs_cnt].key / SP_NROWS(self) : -1);
+      int_t rhs_i = (lgtI > 0 ? ilist[rhs_cnt].key % SP_NROWS(self) : -1);
       for (j=0; j<SP_NCOLS(self); j++) {
         for (i=SP_COL(self)[j]; i<SP_COL(self)[j+1]; i++) {
 
